@@ -98,6 +98,14 @@ func defineVtr() {
 		&slip.UserPkg)
 	slip.Define(
 		func(args slip.List) slip.Object {
+			f := vpark{Function: slip.Function{Name: "vpark", Args: args}}
+			f.Self = &f
+			return &f
+		},
+		&slip.FuncDoc{Name: "vpark", Args: []*slip.DocArg{}, Return: "object", Text: "holds the caller while the harness says so"},
+		&slip.UserPkg)
+	slip.Define(
+		func(args slip.List) slip.Object {
 			f := valt{Function: slip.Function{Name: "valt", Args: args}}
 			f.Self = &f
 			return &f
@@ -200,6 +208,16 @@ func (o *gateObj) Hierarchy() []slip.Symbol {
 
 var gates = [2]*gateObj{{}, {alt: true}}
 
+// runGate holds a call inside a method body: (vpark) is its Hierarchy() in disguise
+var runGate = &gateObj{}
+
+type vpark struct{ slip.Function }
+
+func (f *vpark) Call(s *slip.Scope, args slip.List, depth int) slip.Object {
+	_ = runGate.Hierarchy()
+	return nil
+}
+
 type argObj struct {
 	expr string // the main object of the class
 	alt  string // the alternate object
@@ -215,6 +233,10 @@ type opRec struct {
 	Nmp   bool     `json:"next_method_p,omitempty"`    // the body asks (next-method-p)
 	Calls [][]bool `json:"call_next_method,omitempty"` // one entry per call-next-method form: which arguments are exchanged
 	NoArg []bool   `json:"no_arg_form,omitempty"`      // the form is (call-next-method) without arguments
+	Caught []bool  `json:"in_ignore_errors,omitempty"` // the form is wrapped in ignore-errors
+	Fail  bool     `json:"signals_error,omitempty"`    // the body signals an error after its trace
+	Park  bool     `json:"parks,omitempty"`            // the body contains (vpark): the harness can hold the call there
+	ParkRun bool   `json:"parked_while_running,omitempty"` // kind "gated": the call is held in a method body (not in its lookup)
 	Args  []string `json:"args,omitempty"`             // classes of the call arguments
 	Var   []bool   `json:"variant,omitempty"`          // which object of each class
 	Lisp  string   `json:"lisp"`
@@ -228,6 +250,59 @@ type opRec struct {
 
 var quals = []string{"", ":before", ":after", ":around"}
 var gq = map[string]string{"": "QPrimary", ":before": "QBefore", ":after": "QAfter", ":around": "QAround"}
+
+// bodyLisp renders the body of a method from its shape; pn are the parameter names
+func bodyLisp(r *opRec, pn []string) string {
+	var body strings.Builder
+	fmt.Fprintf(&body, "(vtr %d %s)", r.ID, strings.Join(pn, " "))
+	if r.Nmp {
+		body.WriteString(" (vnp (next-method-p))")
+	}
+	if r.Park {
+		body.WriteString(" (vpark)")
+	}
+	if r.Fail {
+		fmt.Fprintf(&body, " (error \"vfail %d\")", r.ID)
+	}
+	if r.Qual == ":around" || len(r.Calls) > 0 {
+		fmt.Fprintf(&body, " (let ((r %d))", r.ID)
+		for ci, flips := range r.Calls {
+			form := "(call-next-method)"
+			if !r.NoArg[ci] {
+				var as []string
+				for j := range pn {
+					if flips[j] {
+						as = append(as, "(valt "+pn[j]+")")
+					} else {
+						as = append(as, pn[j])
+					}
+				}
+				form = fmt.Sprintf("(call-next-method %s)", strings.Join(as, " "))
+			}
+			if ci < len(r.Caught) && r.Caught[ci] {
+				form = "(ignore-errors " + form + ")"
+			}
+			fmt.Fprintf(&body, " (setq r %s)", form)
+		}
+		fmt.Fprintf(&body, " (vtr %d) r)", -r.ID)
+	} else {
+		fmt.Fprintf(&body, " %d", r.ID)
+	}
+	return body.String()
+}
+
+// bodyGallina is the Model.body of the shape
+func bodyGallina(r *opRec) string {
+	var calls []string
+	for ci, flips := range r.Calls {
+		var bs []string
+		for _, f := range flips {
+			bs = append(bs, common.GBool(f))
+		}
+		calls = append(calls, fmt.Sprintf("(%s, %s)", common.GList(bs), common.GBool(ci < len(r.Caught) && r.Caught[ci])))
+	}
+	return fmt.Sprintf("{| b_id := %d; b_nmp := %s; b_fail := %s; b_calls := %s |}", r.ID, common.GBool(r.Nmp), common.GBool(r.Fail), common.GList(calls))
+}
 
 func gallinaTrace(tr []tev) []string {
 	var evs []string
@@ -251,6 +326,10 @@ func gallinaTrace(tr []tev) []string {
 // genBody draws the shape of a method body: :before / :after only trace; primaries and
 // :around methods may ask next-method-p and contain 0, 1 or 2 call-next-method forms, each with
 // the arguments received, with none written, or with some exchanged for the alternate object
+// errMix: percent of primary / :around bodies that signal an error, percent of call-next-method
+// forms wrapped in ignore-errors; set per history
+var errMix = [2]int{6, 20}
+
 func genBody(ctx *common.Ctx, r *opRec, n int) {
 	if r.Qual == ":before" || r.Qual == ":after" {
 		return
@@ -292,6 +371,11 @@ func genBody(ctx *common.Ctx, r *opRec, n int) {
 		}
 		r.Calls = append(r.Calls, flips)
 		r.NoArg = append(r.NoArg, noArg)
+		r.Caught = append(r.Caught, ctx.Rng.Chance(errMix[1]))
+	}
+	r.Fail = ctx.Rng.Chance(errMix[0])
+	if r.Fail {
+		ctx.Hist("body:signals-error")
 	}
 	ctx.Hist(fmt.Sprintf("body:%s:calls=%d", map[string]string{"": "primary", ":around": "around"}[r.Qual], k))
 }
@@ -341,7 +425,10 @@ func Run(ctx *common.Ctx) {
 	scope.Let(slip.Symbol("*vgate*"), gates[0])
 	scope.Let(slip.Symbol("*vgate2*"), gates[1])
 	for _, e := range [][2]string{{"1", "2"}, {"1/2", "1/3"}, {"1.5", "2.5"}, {`"s"`, `"r"`}, {"*vi2*", "*vi2b*"}, {"*vi4*", "*vi4b*"},
-		{"nil", "*vnil2*"}, {"100000000000000000000", "100000000000000000001"}, {"*vgate*", "*vgate2*"}, {"*vslow*", "*vslow2*"}} {
+		{"nil", "*vnil2*"}, {"100000000000000000000", "100000000000000000001"},
+		// two classes behind one Go type: a proper list is a list, a dotted pair a cons
+		{"'(1 2)", "'(3 4)"}, {"'(1 . 2)", "'(3 . 4)"},
+		{"*vgate*", "*vgate2*"}, {"*vslow*", "*vslow2*"}} {
 		v := common.EvalIn(scope, e[0])
 		w := common.EvalIn(scope, e[1])
 		if v.Err != "" || w.Err != "" {
@@ -379,7 +466,7 @@ func Run(ctx *common.Ctx) {
 	}
 	ct := common.GList(ctItems)
 	specs := []string{"t", "number", "real", "rational", "integer", "fixnum", "ratio", "float", "double-float",
-		"string", "vc1", "vc2", "vc3", "vc4", "bignum", "vslow", "vgate"}
+		"string", "vc1", "vc2", "vc3", "vc4", "bignum", "vslow", "vgate", "cons", "list", "sequence"}
 
 	ncases := 400
 	if ctx.Thorough() {
@@ -406,43 +493,8 @@ func Run(ctx *common.Ctx) {
 				pn[j] = fmt.Sprintf("%s%d", params[j], r.ID)
 				ll = append(ll, fmt.Sprintf("(%s %s)", pn[j], c))
 			}
-			var body strings.Builder
-			fmt.Fprintf(&body, "(vtr %d %s)", r.ID, strings.Join(pn, " "))
-			if r.Nmp {
-				body.WriteString(" (vnp (next-method-p))")
-			}
-			if r.Qual == ":around" || len(r.Calls) > 0 {
-				fmt.Fprintf(&body, " (let ((r %d))", r.ID)
-				for ci, flips := range r.Calls {
-					if r.NoArg[ci] {
-						body.WriteString(" (setq r (call-next-method))")
-						continue
-					}
-					var as []string
-					for j := range pn {
-						if flips[j] {
-							as = append(as, "(valt "+pn[j]+")")
-						} else {
-							as = append(as, pn[j])
-						}
-					}
-					fmt.Fprintf(&body, " (setq r (call-next-method %s))", strings.Join(as, " "))
-				}
-				fmt.Fprintf(&body, " (vtr %d) r)", -r.ID)
-			} else {
-				fmt.Fprintf(&body, " %d", r.ID)
-			}
-			r.Lisp = fmt.Sprintf("(defmethod %s %s (%s) %s)", g, r.Qual, strings.Join(ll, " "), body.String())
-			var calls []string
-			for _, flips := range r.Calls {
-				var bs []string
-				for _, f := range flips {
-					bs = append(bs, common.GBool(f))
-				}
-				calls = append(calls, common.GList(bs))
-			}
-			gops = append(gops, fmt.Sprintf("OpDef %s %s {| b_id := %d; b_nmp := %s; b_calls := %s |}", gq[r.Qual],
-				common.GStrs(r.Key), r.ID, common.GBool(r.Nmp), common.GList(calls)))
+			r.Lisp = fmt.Sprintf("(defmethod %s %s (%s) %s)", g, r.Qual, strings.Join(ll, " "), bodyLisp(r, pn))
+			gops = append(gops, fmt.Sprintf("OpDef %s %s %s", gq[r.Qual], common.GStrs(r.Key), bodyGallina(r)))
 			gobs = append(gobs, "None")
 		}
 		for i := range recs {
@@ -524,6 +576,11 @@ func Run(ctx *common.Ctx) {
 				if r.Var[len(r.Var)-1] {
 					gate = gates[1]
 				}
+				if r.ParkRun {
+					// held in the body of the method with (vpark), after the lookup: the other
+					// routine is not kept waiting, and the call had its methods before the change
+					gate = runGate
+				}
 				gate.arm(r.GateAt)
 				sa, sb := scope.NewScope(), scope.NewScope()
 				k := &sink{}
@@ -575,11 +632,15 @@ func Run(ctx *common.Ctx) {
 				r.Res = shown
 				gops = append(gops, "OpCall "+common.GStrs(r.Args)+" "+common.GList(vs))
 				gobs = append(gobs, fmt.Sprintf("(Some (%s, %s))", common.GList(gallinaTrace(r.Trace)), res))
-				if !r.BFirst {
+				if r.ParkRun || !r.BFirst {
 					gops[idx], gops[idx+1] = gops[idx+1], gops[idx]
 					gobs[idx], gobs[idx+1] = gobs[idx+1], gobs[idx]
 				}
 				switch {
+				case r.ParkRun && r.BFirst:
+					ctx.Hist("gated:method-table-changed-while-the-call-was-running")
+				case r.ParkRun:
+					ctx.Hist("gated:call-not-held-in-its-body")
 				case r.BFirst:
 					ctx.Hist("gated:other-routine-returned-while-the-call-was-parked")
 				case r.Entered:
@@ -638,23 +699,7 @@ func Run(ctx *common.Ctx) {
 			r.Trace = append([]tev{}, trace...)
 			evs := gallinaTrace(r.Trace)
 			var res string
-			switch {
-			case out.Err == "":
-				if fx, ok := out.Value.(slip.Fixnum); ok {
-					res = fmt.Sprintf("RVal %d", int64(fx))
-					r.Res = fmt.Sprint(int64(fx))
-				} else if out.Value == nil {
-					res, r.Res = "RNil", "nil"
-				} else {
-					res, r.Res = "ROther", out.Printed
-				}
-			case out.Err == "no-applicable-method-error":
-				res, r.Res = "RNoApplicable", "!no-applicable-method"
-			case strings.HasPrefix(out.Msg, "No next method"):
-				res, r.Res = "RNoNext", "!no-next-method"
-			default:
-				res, r.Res = "ROther", "!"+out.Err+": "+out.Msg
-			}
+			res, r.Res = resultOf(out)
 			ctx.Hist("call-result:" + strings.SplitN(res, " ", 2)[0])
 			gobs = append(gobs, fmt.Sprintf("(Some (%s, %s))", common.GList(evs), res))
 		}
@@ -723,6 +768,12 @@ func Run(ctx *common.Ctx) {
 		var defined [][2]string // (qual, key joined)
 		id := 0
 		concurrent := ctx.Rng.Chance(30) && !safe
+		errMix = [2]int{6, 20}
+		if ctx.Rng.Chance(20) {
+			// bodies that signal errors and call-next-method forms that survive them
+			errMix = [2]int{25, 65}
+			ctx.Hist("history:error-heavy")
+		}
 		// the mix of qualifiers of a history: even, mostly :around methods (so that three and more
 		// are applicable to one call), or mostly primaries (chains of call-next-method)
 		mix := [3]int{40, 62, 84}
@@ -828,6 +879,96 @@ func Run(ctx *common.Ctx) {
 		}
 		runAndStore(n, recs)
 	}
+	errMix = [2]int{0, 0}
+	// ---- systematic block 1: the cache key separates every two classes. For every ordered pair
+	// (X, Y) of the argument classes and both argument positions: a catch-all primary, one method
+	// (qualifier by rotation) on a class that only one of the two has in its precedence list, then
+	// calls X, Y, X, Y with no definition in between: the second call must not reuse the first
+	// one's effective method.
+	pairNo := 0
+	for pos := 0; pos < 2; pos++ {
+		for xi, x := range pool {
+			for yi, y := range pool {
+				if xi == yi {
+					continue
+				}
+				in := func(c string, h []string) bool {
+					for _, e := range h {
+						if e == c {
+							return true
+						}
+					}
+					return false
+				}
+				var only string
+				for _, c := range y.hier {
+					if !in(c, x.hier) {
+						only = c
+						break
+					}
+				}
+				if only == "" {
+					for _, c := range x.hier {
+						if !in(c, y.hier) {
+							only = c
+							break
+						}
+					}
+				}
+				if only == "" {
+					continue
+				}
+				pairNo++
+				n := 1 + pos
+				tkey, okey := []string{"t"}, []string{only}
+				ax, ay := []string{x.cls}, []string{y.cls}
+				if pos == 1 {
+					tkey, okey = []string{"t", "t"}, []string{"t", only}
+					ax, ay = []string{"fixnum", x.cls}, []string{"fixnum", y.cls}
+				}
+				vr := make([]bool, n)
+				recs := []opRec{{Kind: "def", Qual: "", Key: tkey, ID: 1},
+					{Kind: "def", Qual: quals[pairNo%4], Key: okey, ID: 2},
+					{Kind: "call", Args: ax, Var: vr}, {Kind: "call", Args: ay, Var: vr},
+					{Kind: "call", Args: ax, Var: vr}, {Kind: "call", Args: ay, Var: vr}}
+				if recs[1].Qual == ":around" {
+					recs[1].Calls, recs[1].NoArg, recs[1].Caught = [][]bool{make([]bool, n)}, []bool{pairNo%8 < 4}, []bool{false}
+				}
+				ctx.Hist("history:class-pair")
+				runAndStore(n, recs)
+			}
+		}
+	}
+	// ---- systematic block 2: call-next-method walks the same order after an error. 2 or 3 :around
+	// methods on a class chain; one body further in (the primary or an inner :around) signals an
+	// error; the catching :around (the most specific one, or the middle one of three) calls
+	// call-next-method in ignore-errors and then once more (caught or not, with or without
+	// arguments): both attempts must enter the same methods.
+	chain := []string{"fixnum", "integer", "rational"}
+	for na := 2; na <= 3; na++ {
+		for catcher := 0; catcher < na-1; catcher++ {
+			for failAt := catcher + 1; failAt <= na; failAt++ { // na = the primary
+				for variant := 0; variant < 4; variant++ {
+					var recs []opRec
+					prim := opRec{Kind: "def", Qual: "", Key: []string{"t"}, ID: 1, Fail: failAt == na}
+					recs = append(recs, prim)
+					for a := 0; a < na; a++ {
+						r := opRec{Kind: "def", Qual: ":around", Key: []string{chain[a]}, ID: 2 + a,
+							Calls: [][]bool{{false}}, NoArg: []bool{a%2 == 1}, Caught: []bool{false}, Fail: a == failAt}
+						if a == catcher {
+							r.Calls, r.NoArg = [][]bool{{false}, {false}}, []bool{false, variant%2 == 1}
+							r.Caught = []bool{true, variant >= 2}
+						}
+						recs = append(recs, r)
+					}
+					recs = append(recs, opRec{Kind: "call", Args: []string{"fixnum"}, Var: []bool{variant == 3}},
+						opRec{Kind: "call", Args: []string{"fixnum"}, Var: []bool{false}})
+					ctx.Hist("history:retry-after-error")
+					runAndStore(1, recs)
+				}
+			}
+		}
+	}
 	// histories with a forced schedule: a call parked in the middle of its method lookup while
 	// another routine defines or removes a method the lookup has already passed. The calls that
 	// follow must see the change (a method list computed before it must not be in the cache).
@@ -899,6 +1040,23 @@ func Run(ctx *common.Ctx) {
 			if ctx.Rng.Chance(50) {
 				recs = append(recs, opRec{Kind: "call", Args: args, Var: []bool{!vr[0], vr[1]}})
 			}
+		}
+		if len(defined) > 0 {
+			// the call is held in the body of its first :before method while the other routine
+			// removes (or replaces) a method that is applicable and has not run yet: the call
+			// runs the methods that were defined when it was made
+			id++
+			vr := []bool{ctx.Rng.Chance(30), ctx.Rng.Chance(30)}
+			recs = append(recs, opRec{Kind: "def", Qual: ":before", Key: []string{first.cls, "vgate"}, ID: id, Park: true})
+			d := common.Pick(ctx.Rng, defined)
+			b := opRec{Kind: "remove", Qual: d[0], Key: strings.Split(d[1], "|")}
+			if ctx.Rng.Chance(25) {
+				id++
+				b = opRec{Kind: "def", Qual: d[0], Key: strings.Split(d[1], "|"), ID: id}
+				genBody(ctx, &b, 2)
+			}
+			recs = append(recs, opRec{Kind: "gated", Args: args, Var: vr, GateAt: 1, ParkRun: true, Par: []opRec{b}})
+			recs = append(recs, opRec{Kind: "call", Args: args, Var: vr})
 		}
 		ctx.Hist("history:gated")
 		runAndStore(2, recs)
